@@ -108,6 +108,15 @@ def setupS (inv : F → F) (d : Dom F) (s : F) (n : Nat) : ParamsS F :=
     gLagrange := (List.range n).map (fun i =>
       (powN s n - 1) * d.nInv * powN d.omega i * inv (s - powN d.omega i)) }
 
+/-- `unsafe_setup` as the code computes it under `t` rayon threads: the monomial basis by
+`parallelize` with a worker that starts from `s^start` and multiplies on; the Lagrange basis by
+`parallelize` with a worker that computes entry `start + idx` from scratch. -/
+def setupChunked (t : Nat) (inv : F → F) (d : Dom F) (s : F) (n : Nat) : ParamsS F :=
+  { g := parallelizeM t (List.replicate n (0 : F)) (fun ch start => fillPowers s (powN s start) ch)
+    gLagrange := parallelizeM t (List.replicate n (0 : F)) (fun ch start =>
+      ch.mapIdx (fun idx _ =>
+        (powN s n - 1) * d.nInv * powN d.omega (start + idx) * inv (s - powN d.omega (start + idx)))) }
+
 /-- `g_to_lagrange(g, k)`: inverse DFT `out[i] = n⁻¹ · Σ_j g[j] · ω^{-ij}`. -/
 def gToLagrange (d : Dom F) (g : List F) : List F :=
   (List.range g.length).map (fun i =>
